@@ -76,6 +76,14 @@ func plans(prop, tier string) []drv.Plan {
 				add(s.P, s.W, s.N, mode, "normal", "close", bb)
 			}
 		}
+		// a destination error for one delivery must not end the deliveries: everything written afterwards still
+		// arrives or is reported
+		for _, s := range []shape{{1, 3, 4}, {2, 1, 2}, {1, 3, 1}} {
+			for _, mode := range []string{"waiter", "poller"} {
+				add(s.P, s.W, s.N, mode, "err1", "close", b)
+				add(s.P, s.W, s.N, mode, "err1", "noclose", b)
+			}
+		}
 		for _, s := range []shape{{1, 1, 1}, {1, 2, 2}, {2, 1, 1}, {2, 1, 4}} {
 			for _, mode := range []string{"waiter", "poller"} {
 				add(s.P, s.W, s.N, mode, "normal", "fatal", b)
@@ -92,9 +100,13 @@ func plans(prop, tier string) []drv.Plan {
 			b = 5
 		}
 		for _, s := range small {
+			bb := b
+			if q && s.P*s.W >= 4 {
+				bb = 2 // (quick: the four-write shapes at bound 2; the state key keeps threads that ran their first segment early apart, which triples these)
+			}
 			for _, mode := range []string{"waiter", "poller"} {
-				add(s.P, s.W, s.N, mode, "normal", "noclose", b)
-				add(s.P, s.W, s.N, mode, "normal", "close", b)
+				add(s.P, s.W, s.N, mode, "normal", "noclose", bb)
+				add(s.P, s.W, s.N, mode, "normal", "close", bb)
 			}
 		}
 		// a writer that is closed without ever having been written to (every event was filtered out)
